@@ -368,3 +368,31 @@ func debugCodecPaths(name string, ps []codecState) {
 		fmt.Fprintf(os.Stderr, "PATH %s tags=%s bytes=%d words=%d notes=%v\n", name, p.tags.String(), p.bytes, p.words, p.notes)
 	}
 }
+
+// codecConfig (C11): the dependency contract assumed for the round trip ("DecodeAll / the stream readers decode every
+// frame the matching encoder produced, of any size") holds for decoders created WITHOUT limiting options. The decoders
+// of the package are created by zstd.NewReader(nil) and s2.NewReader(nil) with an empty option list.
+func (e *Eng) codecConfig() {
+	props := []string{"C11"}
+	n := 0
+	var bad []string
+	for _, fn := range e.allFuncs() {
+		for _, p := range find(fn, func(in ssa.Instruction) bool {
+			c := callCommon(in)
+			if c == nil {
+				return false
+			}
+			cn := calleeName(c)
+			return cn == "zstd.NewReader" || cn == "s2.NewReader"
+		}) {
+			n++
+			c := callCommon(p.b.Instrs[p.i])
+			// variadic options: the last argument must be the nil slice constant
+			last := c.Args[len(c.Args)-1]
+			if cst, ok := last.(*ssa.Const); !ok || !cst.IsNil() {
+				bad = append(bad, calleeName(c)+" at "+e.pos(p.b.Instrs[p.i])+" is given options (a size or memory limit would reject streams the encoder can produce)")
+			}
+		}
+	}
+	e.add("codec#decoders-unrestricted", "package", props, n > 0 && len(bad) == 0, fmt.Sprintf("%d decoder constructors, all without options %s", n, strings.Join(bad, "; ")))
+}
